@@ -13,6 +13,11 @@
 //!   sbstat.observe_forget L<m> counts <j> (o <i> | f <i>)*j -> L<m'> counts L<m'> s c … <n>
 //!   sbstat.from_data L<n> xs -> the same three fields
 //!   sbd.ln_f_stat L<k> breaks L<m> counts -> f64 | E:NeedsRng (m > k)
+//!   FRESH seeded sequences — `StickSequence::new(UnitPowerLaw(alpha), Some(seed))`, nothing realised when the op starts; the `L<k> breaks`
+//!   (first k breaks of that sequence, from `stick.breaks`) are for the model only and ignored here:
+//!   sbd.ln_f_stat_fresh  <alpha> <seed> L<k> breaks L<m> counts       -> f64           ln_f_stat is the FIRST call on the object
+//!   sbd.sum_ln_f_fresh   <alpha> <seed> L<k> breaks L<n> xs           -> f64           sum of ln_f(x) in order on another fresh object
+//!   sbd.ln_f_stat_states <alpha> <seed> L<k> breaks L<m> counts <ext> -> f64 f64 f64   ln_f_stat fresh; again; after ln_f(&ext)
 //! A panic of the real code is caught by the main loop (`PANIC`).
 #![allow(unused)]
 use crate::wire::*;
@@ -201,6 +206,37 @@ pub fn dispatch(op: &str, kind: &str, a: &mut Args) -> Option<String> {
             let sbd = StickBreakingDiscrete::new(seq);
             tok(&sbd.ln_f_stat(&st))
         }
+        "sbd.ln_f_stat_fresh" => {
+            let sbd = fresh_sbd(a);
+            let _bs: Vec<f64> = a.list(|a| a.f());
+            let st = rd_stat(a);
+            tok(&sbd.ln_f_stat(&st))
+        }
+        "sbd.sum_ln_f_fresh" => {
+            let sbd = fresh_sbd(a);
+            let _bs: Vec<f64> = a.list(|a| a.f());
+            let xs: Vec<usize> = a.list(|a| a.n() as usize);
+            let s: f64 = xs.iter().map(|x| sbd.ln_f(x)).sum();
+            tok(&s)
+        }
+        "sbd.ln_f_stat_states" => {
+            let sbd = fresh_sbd(a);
+            let _bs: Vec<f64> = a.list(|a| a.f());
+            let st = rd_stat(a);
+            let ext = a.n() as usize;
+            let v1 = sbd.ln_f_stat(&st);
+            let v2 = sbd.ln_f_stat(&st);
+            let _ = sbd.ln_f(&ext);
+            let v3 = sbd.ln_f_stat(&st);
+            format!("{} {} {}", tok(&v1), tok(&v2), tok(&v3))
+        }
         _ => return None,
     })
+}
+
+/// a StickBreakingDiscrete over a NEW seeded StickSequence (nothing realised yet): reads `<alpha> <seed>`
+fn fresh_sbd(a: &mut Args) -> StickBreakingDiscrete {
+    let alpha = a.f();
+    let seed = a.n();
+    StickBreakingDiscrete::new(StickSequence::new(UnitPowerLaw::new_unchecked(alpha), Some(seed)))
 }
